@@ -655,6 +655,7 @@ func (w *watch) update(dirErrors map[string]error, removed ...string) bool {
 		// watching the one which is gone, without ever getting an event
 		// for it. Make sure the same directory is there before and after.
 		before, _ := os.Stat(dir)
+		verifPoint("watch.beforeAdd", dir, 0)
 		err = w.watcher.Add(dir)
 		if err == nil {
 			after, statErr := os.Stat(dir)
